@@ -90,7 +90,7 @@ class CanStaticSchema: public ICanSchema {
         }
         std::string bus_name_str(bus_name.begin(), bus_name_end);
 
-        {% for impl in fcp.get_matching_impls("can") %}
+        {% for impl in fcp.get_matching_impls("can") if impl.fields.get('id') is number %}
         if (sid == {{impl.fields.get('id')}} && bus_name_str == "{{impl.fields.get('bus', 'unkn')}}") {
             return "{{impl.name}}";
         }
@@ -100,7 +100,7 @@ class CanStaticSchema: public ICanSchema {
     }
 
     std::optional<std::uint16_t> GetSid(std::string msg_name) {
-        {% for impl in fcp.get_matching_impls("can") %}
+        {% for impl in fcp.get_matching_impls("can") if impl.fields.get('id') is number %}
         if (msg_name == "{{impl.name}}") {
             return {{impl.fields.get('id')}};
         }
